@@ -18,7 +18,7 @@ RULE = (
 )
 ASSUMPTIONS = [
     "frac_rules_tested is not evaluated for the empty schema (the statement defines no fraction there)",
-    "the failure report is checked format-tolerantly: a line starting with 'Path:' that contains the repr of every component of the failing path, in order",
+    "the failure report is checked format-tolerantly: some line of the report contains the repr of every component of the failing path, in order",
 ]
 
 
@@ -58,8 +58,6 @@ def _perm_from(seed):
 def path_named(report, path):
     comps = [repr(k) for k in path]
     for line in report.splitlines():
-        if not line.lstrip().startswith("Path:"):
-            continue
         pos, ok = 0, True
         for c in comps:
             j = line.find(c, pos)
